@@ -96,6 +96,7 @@ type recClient struct {
 	name, nick string
 	viaCA      bool
 	roles      []string
+	sameKeyAs  string
 }
 
 var recClients = []recClient{
@@ -103,6 +104,8 @@ var recClients = []recClient{
 	{name: "bob", nick: "bob", roles: []string{"dev"}},
 	{name: "carol", nick: "team", viaCA: true, roles: []string{"rel", "dev"}},
 	{name: "dave", nick: "team", viaCA: true, roles: []string{"rel", "dev"}},
+	// carol's key pair re-issued by the same CA under another subject (renamed owner): same SubjectPublicKeyInfo, other DN
+	{name: "carol2", nick: "team", viaCA: true, roles: []string{"rel", "dev"}, sameKeyAs: "carol"},
 	{name: "mallory"}, // unknown to the server
 }
 
@@ -277,6 +280,9 @@ func buildRecUniverse() (*recUniverse, error) {
 	}
 	for i, c := range recClients {
 		k, _ := ecdsa.GenerateKey(elliptic.P256(), rand.Reader)
+		if c.sameKeyAs != "" {
+			k = u.clients[c.sameKeyAs].key
+		}
 		var crt *x509.Certificate
 		if c.viaCA {
 			crt, err = mkCert("verif c06 client "+c.name, int64(30+i), &k.PublicKey, clientCA, cak, x509.ExtKeyUsageClientAuth, false)
@@ -516,6 +522,14 @@ func runRec(f []string) string {
 		return "bad-op"
 	}
 	path, key, sigtype, digest, client := f[1], f[2], f[3], f[4], f[5]
+	if i := strings.LastIndex(client, ">"); i >= 0 {
+		// "a>b": the same request by client a first (outcome not reported), then by b, on the one running server, so that
+		// an op whose outcome depends on an earlier request replays by itself
+		g := append([]string{}, f...)
+		g[5] = client[:i]
+		runRec(g)
+		client = client[i+1:]
+	}
 	if len(f[6]) < 1 || f[6][0] != 'x' {
 		return "bad-op"
 	}
@@ -732,6 +746,28 @@ func runRec(f []string) string {
 	if mod != nil && rType != mod.Name {
 		bad("signer module %s, record says %s", mod.Name, rType)
 	}
+	// ---- who the record says made the request: the certificate presented on THIS connection
+	if path == "srv" {
+		id := u.clients[client]
+		var rc *recClient
+		for i := range recClients {
+			if recClients[i].name == client {
+				rc = &recClients[i]
+			}
+		}
+		if rc != nil && id != nil {
+			if got := str(rec, "client.name"); got != rc.nick {
+				bad("client.name %q, the presented certificate belongs to %q", got, rc.nick)
+			}
+			wantDN := ""
+			if rc.viaCA {
+				wantDN = x509tools.FormatPkixName(id.cert.RawSubject, x509tools.NameStyleOpenSsl)
+			}
+			if got := str(rec, "client.dn"); got != wantDN {
+				bad("client.dn %q, the certificate presented for this request has subject %q", got, wantDN)
+			}
+		}
+	}
 	// ---- timestamp, content type
 	if ts, err := time.Parse(time.RFC3339Nano, str(rec, "sig.timestamp")); err != nil || ts.Before(t0) || ts.After(time.Now().Add(time.Second)) {
 		bad("sig.timestamp %q outside the request's time window", str(rec, "sig.timestamp"))
@@ -810,6 +846,11 @@ func genRec(w *bufio.Writer, r *hx.Rng, tier string) {
 	for _, c := range recClients {
 		emit("srv", "k2", "pe-coff", "sha256", c.name, fn())
 		emit("srv", "devk", "cat", "-", c.name, fn())
+	}
+	// 3b. one key pair, two certificates with different subjects, requests alternating on the one running server: each
+	// record names the subject of the certificate that was presented for THAT request
+	for i, c := range []string{"carol>carol2", "carol2>carol", "carol>carol", "dave>carol2", "carol2>dave>carol", "alice>carol2", "carol>alice"} {
+		emit("srv", []string{"k2", "k1"}[i%2], []string{"ps", "pgp", "jar"}[i%3], "sha256", c, fn())
 	}
 	// 4. seeded
 	n := 40
